@@ -5,6 +5,7 @@ CONSTANTS
   BatchSize = 12
   Datasets = {"full", "floats", "hist", "sparse"}
   IllTyped = TRUE
+  EnumMode = FALSE
   EmitOn = TRUE
 INVARIANTS TypeOK WellTyped Emit
 CHECK_DEADLOCK FALSE
